@@ -1,10 +1,41 @@
 import Driver.Crdt
+import AmVerif.Model.Store
 /- Extension of the `crdt` driver engine: commands `crdt.st.*` (concrete op store, M4) on the same per-case state. -/
 namespace Driver.CrdtStore
 open AmVerif AmVerif.Crdt AmVerif.Wire Driver.Crdt
 
+/-- the model store of a replica: `insertRemote` folded over the ops of the applied changes in
+    application order; `none` when the model predicts a panic of `BatchApply` -/
+def storeOf (st : State) (r : String) : Option Store :=
+  let w := opWidth st.enc true
+  ((getReplica st r).applied.flatMap (·.ops)).foldl
+    (fun acc o => match acc with
+      | none => none
+      | some s => match insertRemoteO w s o with | .ok s' => some s' | _ => none)
+    (some [])
+
+def hasPending (st : State) (r : String) : Bool :=
+  match st.txs.find? (fun p => p.1 == r) with
+  | some (_, t) => !t.pending.isEmpty
+  | none => false
+
 def exec (st : State) (toks : List String) : State × List String :=
   match toks with
+  -- the rows of the op store with successor lists and the three index columns; `idx=` says whether
+  -- the incrementally maintained columns equal their from-scratch definition
+  | ["crdt.st.dump", r] =>
+    if hasPending st r then (st, ["pending"]) else
+    match storeOf st r with
+    | none => (st, ["panic"])
+    | some s =>
+      let w := opWidth st.enc true
+      (st, [s!"{showStore s} idx={if indexOk w s then "ok" else "BAD"}"])
+  -- the document read from the store rows only
+  | ["crdt.st.state", r] =>
+    if hasPending st r then (st, ["pending"]) else
+    match storeOf st r with
+    | none => (st, ["panic"])
+    | some s => (st, [storeShowDoc s (((getReplica st r).applied.flatMap (·.ops)).length + 1)])
   | _ => (st, ["unknown-cmd"])
 
 end Driver.CrdtStore
